@@ -12,16 +12,16 @@ import (
 // Every line gets a unique text derived from its generation order, so the model never has to
 // enumerate texts to tell statements apart.
 type progGen struct {
-	c        *explore.Chooser
-	rem      int      // remaining statement budget
-	kinds    []string // statement alphabet
-	maxDepth int
-	nodes    []string // node titles
+	c            *explore.Chooser
+	rem          int      // remaining statement budget
+	kinds        []string // statement alphabet
+	maxDepth     int
+	nodes        []string // node titles
 	extraTargets []string // further jump targets (nodes added by the caller)
-	lineNo   int
-	maxOpts  int
-	maxCl    int
-	conds    []func() *yc.Expr
+	lineNo       int
+	maxOpts      int
+	maxCl        int
+	conds        []func() *yc.Expr
 	// hooks for extra statement kinds: name -> generator
 	extra map[string]func(g *progGen) *yc.Stmt
 }
